@@ -5,6 +5,7 @@ import (
 	"bytes"
 	"context"
 	"crypto/tls"
+	"encoding/json"
 	"errors"
 	"fmt"
 	"html"
@@ -16,6 +17,7 @@ import (
 	"os"
 	"path/filepath"
 	"regexp"
+	"runtime"
 	"runtime/debug"
 	"sort"
 	"strconv"
@@ -325,15 +327,13 @@ func (w *World) run(scn int) {
 					nInternal++
 				}
 			}
-			if plan.Burst && nInternal >= 2 && plan.Sched != "replay" && plan.Sched != "guided" && w.rng.Intn(6) == 0 {
+			if plan.Burst && len(ps) >= 2 && nInternal >= 1 && plan.Sched != "replay" && plan.Sched != "guided" && w.rng.Intn(max(1, dflt(plan.BurstEvery, 6))) == 0 {
 				// release every parked proxy goroutine at once: they race for real between two hooks
 				opts = append(opts, "burst")
 				internal = append(internal, false)
 				w.ctl.Decisions = append(w.ctl.Decisions, "burst")
 				for _, p := range ps {
-					if p.internal {
-						w.ctl.release(p)
-					}
+					w.ctl.release(p)
 				}
 				continue
 			}
@@ -345,9 +345,7 @@ func (w *World) run(scn int) {
 			w.ctl.Decisions = append(w.ctl.Decisions, opts[i])
 			if opts[i] == "burst" {
 				for _, p := range ps {
-					if p.internal {
-						w.ctl.release(p)
-					}
+					w.ctl.release(p)
 				}
 			} else if opts[i] == "advance" {
 				select {
@@ -461,6 +459,27 @@ func (w *World) onYield(point string, objs ...any) {
 			return
 		}
 		kv["c"] = strings.TrimPrefix(actor, "c:")
+		if strings.HasPrefix(point, "snap_") && !w.plan.SnapObs && point != "snap_begin" {
+			// inside the snapshot write a lock is held: never park there
+			w.rec.Emit("y_"+point, kv)
+			return
+		}
+		if strings.HasPrefix(point, "snap_") && w.plan.SnapObs {
+			// a crash point of the snapshot write: what is on disk right now?
+			cfg, ok := w.fileCfg()
+			w.rec.Emit("mem_obs", KV{"c": kv["c"], "cfg": w.memCfg()})
+			w.rec.Emit("file_obs", KV{"c": kv["c"], "point": point, "ok": ok, "cfg": cfg})
+			if w.plan.SnapSpin > 0 && (point == "snap_listed" || point == "snap_created") {
+				// stay in this step for a little real time, so that overlapping commands run past it in parallel
+				t0 := time.Now()
+				_ = t0
+				spinFor(w.plan.SnapSpin)
+			}
+			if point != "snap_begin" || w.plan.SnapSpin > 0 {
+				w.rec.Emit("y_"+point, kv)
+				return // never park inside the snapshot write (a lock may be held there)
+			}
+		}
 	case "wait_healthy":
 		t := objs[0].(*server.Target)
 		actor = "wh:" + w.targetName(t)
@@ -558,6 +577,51 @@ func (w *World) onEmit(event string, objs ...any) {
 		return
 	}
 	w.rec.Emit("e_"+event, kv)
+}
+
+// memCfg: the configuration in force, rendered the way the state file would describe it (same marshaller), canonical.
+func (w *World) memCfg() string {
+	list := w.router.ListActiveServices()
+	names := make([]string, 0, len(list))
+	for n := range list {
+		names = append(names, n)
+	}
+	sort.Strings(names)
+	arr := []any{}
+	for _, n := range names {
+		if s := server.VerifRouterService(w.router, n); s != nil {
+			b, err := json.Marshal(s)
+			if err != nil {
+				continue
+			}
+			var v any
+			json.Unmarshal(b, &v)
+			arr = append(arr, v)
+		}
+	}
+	b, _ := json.Marshal(arr)
+	return string(b)
+}
+
+// fileCfg: what a proxy started now would read from the state file ("" = nothing to restore / undecodable).
+func (w *World) fileCfg() (string, bool) {
+	b, err := os.ReadFile(w.statePath)
+	if err != nil {
+		if os.IsNotExist(err) {
+			return "[]", true
+		}
+		return "", false
+	}
+	var arr []map[string]any
+	if err := json.Unmarshal(b, &arr); err != nil {
+		return "", false
+	}
+	sort.Slice(arr, func(i, j int) bool { return fmt.Sprint(arr[i]["name"]) < fmt.Sprint(arr[j]["name"]) })
+	out, _ := json.Marshal(arr)
+	if arr == nil {
+		return "[]", true
+	}
+	return string(out), true
 }
 
 func (w *World) dialHook(kind, addr string) error {
@@ -696,6 +760,9 @@ func (w *World) execCmd(cmd Cmd) {
 	for k, v := range w.extra {
 		call[k] = v
 	}
+	if w.plan.SnapObs {
+		w.rec.Emit("mem_obs", KV{"c": cmd.ID, "cfg": w.memCfg()})
+	}
 	w.rec.Emit("cmd_call", call)
 	res := ""
 	var listing any
@@ -736,6 +803,11 @@ func (w *World) execCmd(cmd Cmd) {
 		kv["list"] = listing
 	}
 	w.rec.Emit("cmd_ret", kv)
+	if w.plan.SnapObs {
+		cfg, ok := w.fileCfg()
+		w.rec.Emit("mem_obs", KV{"c": cmd.ID, "cfg": w.memCfg()})
+		w.rec.Emit("file_obs", KV{"c": cmd.ID, "point": "returned", "ok": ok, "cfg": cfg})
+	}
 	if ch := w.cmdDone[cmd.ID]; ch != nil {
 		close(ch)
 	}
@@ -929,3 +1001,11 @@ func (w *World) doUpgrade(rq Req) {
 }
 
 var _ = net.ErrClosed
+
+// spinFor keeps the calling goroutine running (not blocked) for about us microseconds of real time.
+func spinFor(us int) {
+	t0 := rtNow()
+	for rtNow()-t0 < int64(us)*1000 {
+		runtime.Gosched()
+	}
+}
